@@ -23,6 +23,10 @@ def run(ctx):
                 for qk in ("lex", "typo"):
                     ties.append(dict(entry="universal", limit=lim, nlp=nlp, fuzzy=fz, thr=0, ponly=False, pboost=False,
                                      allplat=False, plats=[], nocross=False, boost=False, query=qk, corpus="tie"))
+    for lim in (3, 5, 10):   # wide ties on a large corpus (the re-ranker's own cut, parallel scans)
+        for nlp in (False, True):
+            ties.append(dict(entry="universal", limit=lim, nlp=nlp, fuzzy=False, thr=0, ponly=False, pboost=False,
+                             allplat=False, plats=[], nocross=False, boost=False, query="lex", corpus="bigtie"))
     shipped = shipped_scenarios(rnd, 40 if q else 400)
     tr, info, ok, rej = engine.run_cases(ctx, base + ties + shipped, ["C02"], reps=6 if q else 25)
     for x in rej:
@@ -45,10 +49,28 @@ README_QUERIES = ["compress a directory", "find files by name", "git commit chan
                   "undo last git commit", "install package", "count lines in file", "replace text in file", "mount usb drive"]
 
 
+_TOOLS = None
+
+
+def tool_names():
+    """first words of the shipped commands (bare tool names are queries whose candidates get a uniform boost)"""
+    global _TOOLS
+    if _TOOLS is None:
+        import re
+        from core import REPO
+        names = {}
+        for m in re.finditer(r'^- command: ["\']?([A-Za-z][A-Za-z0-9_.+-]{1,20})', open(REPO + "/assets/commands.yml", errors="replace").read(), re.M):
+            names[m.group(1).lower()] = names.get(m.group(1).lower(), 0) + 1
+        _TOOLS = sorted(n for n, c in names.items() if c >= 3) or ["git", "docker", "tar"]
+    return _TOOLS
+
+
 def shipped_scenarios(rnd, k):
     out = []
     for i in range(k):
         qtext = rnd.choice(README_QUERIES)
+        if rnd.random() < 0.35:
+            qtext = rnd.choice(tool_names())
         if rnd.random() < 0.3:
             w = qtext.split()
             j = rnd.randrange(len(w))
